@@ -11,8 +11,10 @@ EXPLANATION = ('The arithmetic bound on gaps between trigger firings (thread-loc
                'decided. Decided: (R10.1) in the cache-directory set and put, for every implementor, the trigger (the object '
                'returned by the same cache directory\'s trigger accessor) is consulted on every path before the first step of the '
                'publish, and below its true edge the directory listing of maintenance precedes the publish; (R10.2) the plain '
-               'cache\'s trigger period, as an expression of the constructor\'s parameters, is capacity / 3.')
-FLOORS = {'R10.1': 4, 'R10.2': 2}
+               'cache\'s trigger period, as an expression of the constructor\'s parameters, is capacity / 3; (R10.3) in every '
+               'public operation of the plain cache, a consultation of the (thread-local, shared) countdown that fires is followed '
+               'by maintenance of the directory, so no firing is consumed without maintaining.')
+FLOORS = {'R10.1': 4, 'R10.2': 2, 'R10.3': 2}
 
 
 def r10_1(ctx):
@@ -76,6 +78,37 @@ def r10_2(ctx):
     return out
 
 
+def r10_3(ctx):
+    """the countdown is one thread-local shared by every consultation: a consultation that fires without running
+    maintenance steals the firing from the next write.  In the plain cache's public API every fired consultation
+    must be followed by the directory listing of maintenance."""
+    out = []
+    T = tags_of(ctx)
+    T.need('trigger')
+    tr = ctx.traits[ctx.role('cachedir_trait')]
+    plain = [imp['self_ty_s'] for imp in tr['impls'] if ctx.facts['adts'].get(imp['self_ty_s'], {}).get('public')]
+    n = 0
+    for k, b in sorted(ctx.B.items()):
+        if not (b['public'] and b.get('impl_self_ty') is not None and ctx.T[b['impl_self_ty']]['s'] in plain and not b.get('impl_trait')):
+            continue
+        if not (ctx.cg.effects(k) & prims.FS_CLASSES):
+            continue
+        q = ctx.explore(k, dyn_force=None)
+        consults = {q.E[e][2]['res'] for e in q.edges(lambda ev: ev['k'] == 'pure_local' and ev['path'] in T.trigger_consult_paths)}
+        fired = q.edges(lambda ev: ev['k'] == 'branch' and ev.get('eq') == 1 and ev['val'] in consults)
+        if not consults:
+            continue
+        n += 1
+        lists = [e for e in q.prim_edges('list_dir') if path_class(ctx, q, arg_role(q.E[e][2], 'path')) == 'Base']
+        esc = q.must_follow(fired, lists, q.terminals())
+        out.append(inst('R10.3', b['path'], bool(fired) and not esc,
+                        'every fired trigger consultation is followed by maintenance of the directory' if fired and not esc else
+                        '%s consults the shared maintenance countdown, and when it fires no maintenance follows: the firing is lost '
+                        'and a writer can go more than capacity/3 writes without maintenance' % b['path'],
+                        path=witness_path(q, esc[0]) if esc else []))
+    return out
+
+
 def run(ctx):
     from runner import collect
-    return collect(ctx, r10_1, r10_2)
+    return collect(ctx, r10_1, r10_2, r10_3)
